@@ -15,6 +15,26 @@ def main():
     assert not crashes, crashes[0].stderr
     assert res[0].endswith("42011234aabbb3666f6fff6869"), res
     print("selftest: pure harness ok (%.1fs)" % (time.time() - t))
+    from . import world
+    wexe = build.ensure_world("asan")
+    logs = []
+    for _ in range(2):
+        w = world.World(wexe, seed=5)
+        sim = world.Sim(w)
+        sim.add_node(0)
+        sim.add_node(1)
+        sim.cmd("ep 1 udp 10.0.0.2:5683")
+        sim.cmd("res 1 72 body=fixed:6869")
+        sim.cmd("sess 0 0 udp 10.0.0.2:5683")
+        sim.fault = lambda sm, i, ev: [] if i == 0 else None
+        sim.cmd("send 0 0 type=0 code=1 token=aa opts=11=72")
+        sim.run(horizon=60000)
+        evs, rc, err = w.close()
+        assert rc == 0, err
+        assert any(e["e"] == "rsp" and e["phex"] == "6869" for e in sim.log), "no response"
+        logs.append([(e["e"], e.get("t"), e.get("b")) for e in sim.log])
+    assert logs[0] == logs[1], "closed world is not deterministic"
+    print("selftest: world harness ok, deterministic (%.1fs)" % (time.time() - t))
     return 0
 
 
